@@ -34,6 +34,9 @@ CLAIMED = {
  "C09": dict(
   text="Deductive proof of the automatically generated safety obligations (index and slice bounds, nil dereference, nil map write, unchecked type assertion, division by zero, makeslice bounds, explicit panic, close of closed channel) on every path of every /repo function under contract (server request path from HandleRequest down, allocation package, wire codecs, stream framer, relay generators), for all inputs, plus framer progress (a successful frame consumes at least one byte) and loop variants where given.",
   ref="9 (C09)", note="Partial: panics inside dependencies are assumed away; the server/client read loops and the client's HandleInbound are not under contract yet; 'still serves afterwards' is an argument from no-panic + termination + lock balance, not an obligation.", technique=TECH),
+ "C12": dict(
+  text="Deductive proof on the real client code of the per-step facts the property is made of: a new transaction starts with nRtx 0 and interval RTO and is registered under its base64 transaction id before the first send of a private copy of the request; each timer firing adds exactly one to nRtx, doubles the interval and caps it at 1.6 s, and calls the timeout handler unlocked; the handler resends the same bytes to the same address only while nRtx != 7 and the transaction is still in the table, re-arms the timer with the current interval, and at nRtx == 7 or on a write error removes the entry and writes an error result; a response completes only the transaction found under its own id, after its timer is stopped and its entry removed under Client.mutexTrMap, with exactly that message and source; an unknown id writes nothing; every completion (WriteResult) is made by the execution that removed the entry under the lock (so at most one); Close empties the table and closes every pending result channel; nothing is left in the table when the first send fails (defect fixed).",
+  ref="9 (C12)", note="NOT decided (outside the family, listed in evidence): 'never hangs' (the rendezvous on the unbuffered result channel needs a waiting receiver: liveness), real-time behaviour of time.AfterFunc (A2), atomicity of a handler w.r.t. other goroutines beyond what the lock obligations give (A1). The 7-transmission schedule is the composition of the proved per-firing clauses (lemmas C12:schedule).", technique=TECH),
  "C15": dict(
   text="Deductive proof with ghost counters: relay generators leave no socket open on error paths; GetRandomEvenPort closes every probe socket; CreateAllocation opens exactly one relay socket/listener and fires one created event on success and nothing on failure; DeleteAllocation closes the allocation and fires exactly one deleted event iff the key existed; Close is idempotent, stops the timer, removes all TCP connections and closes the relay; TCP connection removal closes exactly once.",
   ref="9 (C15)", note="Partial: goroutine/timer drain and Manager.Close / Server.Close are not under contract (Manager.Close needs a separation invariant between allocations); permission/channel event pairing is not proved.", technique=TECH),
@@ -68,7 +71,6 @@ CLAIMED = {
 }
 
 NA_REASON = {p: "contracts for this property's functions are not written yet in this session (see DESIGN.md section 11)" for p in ALL}
-NA_REASON["C12"] = "client transaction code (client.go, internal/client/transaction.go) is not under contract yet; timer/response races are outside the family anyway (DESIGN.md 9, C12)"
 NA_REASON["C13"] = "client relayed-socket code (internal/client/udp_conn.go, binding.go) is not under contract yet"
 NA_REASON["C14"] = "liveness over unbounded histories with real timers: not decidable by contracts on this code; the necessary-condition lemmas planned in DESIGN.md 9 (C14) are not written yet"
 NA_REASON["C17"] = "lt_cred.go generators/handlers are not under contract yet"
